@@ -439,6 +439,9 @@ class Evaluator:
         self.consts = consts or {}
 
     def num(self, n, env):
+        key0 = self.leaf(peel(n, methods=False))
+        if key0 is not None and key0 in env:
+            return env[key0]
         if self.locals is not None:
             n = self.locals.chase(n)
         n = peel(n, methods=False)
@@ -464,6 +467,16 @@ class Evaluator:
             return self.num(n["e"], env)
         if k == "MCall" and n["m"] in ("clone", "to_owned") and not n["args"]:
             return self.num(n["recv"], env)
+        if k == "Match" and n.get("src") == "Normal":
+            v = self.num(n["scrut"], env)
+            for a in match_arms(n):
+                for key in a["keys"]:
+                    if key == "_" or key == ("lit", v):
+                        return self.num(a["body"], env)
+        if k == "If" and "e" in n:
+            return self.num(n["t"], env) if self.boolean(n["c"], env) else self.num(n["e"], env)
+        if k == "Block" and not n["stmts"] and "expr" in n:
+            return self.num(n["expr"], env)
         raise NotComparison("not a numeric leaf: %s" % render(n))
 
     def boolean(self, n, env):
